@@ -478,8 +478,7 @@ def run_c12(ctx):
         sets.append(gen.huge_set(ctx.rng))
     # > 65536 units: the second level of the 16-bit DAC (m_num_levels != 0 in bc_vector_16)
     az = bytes(range(97, 123))
-    # 130 000 keys: also a saved file of more than 4 MiB (size-dependent paths of save)
-    sets.append(('huge16-100k', sorted(set(gen.rand_word(ctx.rng, az, 4, 10) for _ in range(130000)))))
+    sets.append(('huge16-100k', sorted(set(gen.rand_word(ctx.rng, az, 4, 10) for _ in range(60000)))))
     # a saved file of more than 4 MiB (size-dependent paths of save / load): 45 000 keys with 100-byte unshared suffixes
     sets.append(('hugefile-5m', sorted(set(gen.rand_word(ctx.rng, az, 100, 100) for _ in range(45000)))))
     cases = []
@@ -502,7 +501,12 @@ def run_c12(ctx):
                 threads[k] = ['SAVE', 'MEM', 'SAVE'] + threads[k]
         cases.append(conc_case('c%d-%s' % (n, d), v, b, src, K, threads))
     os.environ.setdefault('VERIF_CASE_TIMEOUT', '120')
+    # the two largest dictionaries (> 65536 units; a file > 4 MiB) run implementation-vs-specification only under TSan:
+    # the list-based model needs ten minutes for their certificate
+    big = [c for c in cases if '-huge16' in c['id'] or '-hugefile' in c['id']]
+    cases = [c for c in cases if c not in big]
     correspond(ctx, cases, ['tsan'], j_conc, 'main')
+    correspond(ctx, big, ['tsan'], j_conc, 'big', model=False)
 
 def hist_ops(ctx, K, n):
     """random operation histories over several live iterators, reused buffers, moves (C13)"""
